@@ -526,6 +526,12 @@ class TupimageTerminal:
         max_cols, max_rows = self.get_max_cols_and_rows(
             max_cols=max_cols, max_rows=max_rows
         )
+        # An explicitly given dimension is subject to the limits too: cap it
+        # before the other dimension is derived from it.
+        if cols is not None:
+            cols = min(cols, max_cols)
+        if rows is not None:
+            rows = min(rows, max_rows)
         cell_width, cell_height = self.get_cell_size()
         # Combine global and local scale factors
         local_scale = scale or self._config.scale
